@@ -1721,7 +1721,16 @@ class SiftConfig(collections.abc.MutableMapping):
     def from_yaml_stream(cls, stream):
         """Create and return a new SiftConfig object with options loaded from a yaml stream."""
         ret = cls()
-        ret.store = yaml.load(stream, Loader=yaml.FullLoader)
+        cfg = [d for d in yaml.load_all(stream, Loader=yaml.FullLoader)]
+        if len(cfg) == 1 and isinstance(cfg[0], list):
+            # to_yaml_text writes [sift_type, options] as a single document
+            cfg = cfg[0]
+        if len(cfg) == 1:
+            ret.store = cfg[0]
+            ret.sift_type = 'Unknown'
+        else:
+            ret.sift_type = cfg[0]['sift_type']
+            ret.store = cfg[1]
         return ret
 
     def get_func(self):
